@@ -67,6 +67,11 @@ CHECKS.update({
          'Every endpoint x arguments x options x base URL x limiter mode x status/body is called against a local server that records method, path and query; the oracle checks exactly one GET to the documented path (queries as parameter sets, bbox numerically), limiter Wait ordered before the request and no request after a limiter error, returned elements equal to what the server wrote (independent XML writer), status-to-typed-error mapping with NotFound only for 404, no partial data with an error, and exactly-one-element calls. Thorough enumerates the whole product.',
          'trusted: the endpoint table written from the API v0.6 documentation. bbox decimals beyond 1e-6 are not asserted (the statement promises no precision).'),
 })
+CHECKS.update({
+ 'C19': ('fault_enumeration', 'fake planet server (httptest) with exact-path routing, request log and a logical request budget; exhaustive missing-file patterns for small ranges',
+         'For ranges 1..N (N<=9 quick, <=11 thorough) every subset of present state files (404 for the others) x every query position x the four streams is looked up through the public *StateAt API against a local server that answers only the documented planet paths and turns non-termination into a counted budget overrun (HTTP 500); the result must be the first present state at or after t (newest when later than all) within the loose request budget; larger and high-offset ranges with gap runs next to the probes are sampled; the three timestamp formats, the changeset off-by-one and data URLs are checked.',
+         'trusted: the fake server\'s layout table (three-level zero-padded paths, state.txt/state.yaml). Offset windows with a missing prefix longer than 5 000 files are not queried at or before their first present state.'),
+})
 PENDING = 'check not built yet in this revision of /verif (planned in DESIGN.md section 4); no verdict is claimed'
 
 checks, na = [], []
